@@ -755,10 +755,10 @@ def reexportShape (proj : Project) : Bool :=
     let b := bodyOf proj m
     (b.filter isAllStmt).length ≤ 1 && ((b.filter isAllStmt).isEmpty || !(b.any isStarStmt))) &&
   -- the re-exporter imports the object directly from the plain module that defines it (a class / function),
-  -- and that module does not itself list it in an `__all__`
+  -- and that module does not itself list it in an `__all__`; the new name is not of the form `name i` (a superseded duplicate)
   ((reexportReqs proj).all fun r =>
     r.1 != r.2.2.1 && !isPkg proj r.1 && definesTop proj r.1 r.2.1 &&
-    !((lastAll (bodyOf proj r.1)).getD []).contains r.2.1) &&
+    !((lastAll (bodyOf proj r.1)).getD []).contains r.2.1 && !isSupersededName r.2.2.2) &&
   -- at most one re-exporter per object
   nodupB ((reexportReqs proj).map fun r => (r.1, r.2.1)) &&
   -- class bodies do not import
